@@ -1,5 +1,5 @@
 import PallasVerif.Proofs.P2PProtoTie
-import PallasVerif.Proofs.P2PSync
+import PallasVerif.Proofs.P2PAsync
 /-!
 # C28 — The P2P initiator never violates a protocol it speaks
 
@@ -32,9 +32,20 @@ specification does not permit in its view.
   that peer. This is the guard discipline of every emitter (keepalive, discovery, blockfetch,
   chainsync housekeeping and tagged, leios notify/fetch, handshake proposal).
 
-Outside the lock-step domain (confirmations delayed past the next emitting step, or a reply
-delivered before the confirmation of the request it answers) nothing is proved; that part of the
-schedule space is only sampled by the `p2p_sched` stream.
+* `initiator_conformant_delayed` — the same conclusion on the **general** schedule semantics
+  (`List Sched`, `sysRun`: `Sent` confirmations, arrivals at the responder, replies and deliveries
+  delayed and interleaved arbitrarily) for every schedule in `InDomain`, i.e. satisfying two side
+  conditions: (a) `EmitOK` — no step queues a `Send` of protocol X for a connection that still has an
+  unconfirmed `Send` of X; (b) a reply of protocol X is not delivered while the X request on that
+  connection is unconfirmed (a real connection reports `Sent` before the answer can be read).
+  `emitOK_complement` says that the negation of (a) is literally the situation of the known finding
+  (a `Send` queued while an earlier `Send` of the same protocol on that connection is unconfirmed):
+  with (b) granted, the theorem and the known finding partition the schedules. `inDomainB` is a
+  computable, sound domain check; the #16 witness is outside the domain, a delayed-confirmation
+  variant of it is inside.
+
+Not proved: schedules violating (b) (a reply overtaking the confirmation of its request); they are
+sampled by the `p2p_sched` stream only (no violation found there).
 -/
 namespace PallasVerif.Props.C28
 open PallasVerif.P2P
@@ -109,6 +120,30 @@ theorem lockstep_run_is_schedule : ∀ (ss : List SStep) (y : Sys), ∃ sched : 
       rw [sysRun_append, ht, hs]
       simp only [Option.bind, syncRun, hs, hs']
 
+/-- **conformance with delayed confirmations**: any schedule of the general semantics that never
+    queues a `Send` of a protocol with an unconfirmed `Send` on the same connection (and never
+    delivers a reply ahead of the confirmation of its request) -/
+theorem initiator_conformant_delayed (cfg : Cfg) (sched : List Sched) (hd : InDomain (Sys.init cfg) sched) (y : Sys)
+    (h : sysRun (Sys.init cfg) sched = some y) : y.observed = [] :=
+  (gen_run sched (gen_init cfg) hd h).obs
+
+/-- the complement of side condition (a) is the known finding's situation -/
+theorem emitOK_complement (y : Sys) (outs : List Out) :
+    ¬ EmitOK y outs ↔ ∃ p l m m', y.links p = .up l ∧ m ∈ sendsTo p outs ∧ m' ∈ l.unconfirmed ∧ m'.proto = m.proto := by
+  constructor
+  · intro h
+    apply Classical.byContradiction
+    intro hn
+    apply h
+    intro p l hl m hm m' hm' he
+    exact hn ⟨p, l, m, m', hl, hm, hm', he⟩
+  · intro ⟨p, l, m, m', hl, hm, hm', he⟩ h
+    exact h p l hl m hm m' hm' he
+
+/-- `inDomainB` decides membership soundly -/
+theorem inDomain_of_check (y : Sys) (sched : List Sched) (h : inDomainB y sched = true) : InDomain y sched :=
+  inDomainB_sound sched y h
+
 /-! ## Non-vacuity -/
 
 /-- the witness' commands on a lock-step schedule: handshake, three housekeeping passes, a keep-alive
@@ -131,5 +166,24 @@ example : (syncRun (Sys.init cfgW) lockstep).map
 theorem keepalive_machine_matches_source (s : KaSt) (m : KaMsg) :
     (PallasVerif.Gen.FsmN2.keepalive.step (KaSt.cls s) (KaMsg.kind m)).next? = (s.apply m).map KaSt.cls :=
   ka_matches_source s m
+
+/-- the #16 witness is outside the domain (its second housekeeping queues KeepAlive while the first is unconfirmed) … -/
+example : inDomainB (Sys.init cfgW) witness = false := by decide
+
+/-- … while this schedule is inside it and conformant: the proposal reaches the responder and is
+    answered before its `Sent` arrives; KeepAlive and ShareRequest reach the responder, and KeepAlive
+    is even answered, while both are still unconfirmed; the confirmations come late and out of step
+    with the arrivals; the last KeepAlive is still unconfirmed at the end -/
+def delayed : List Sched :=
+  [.ev (.includePeer 0), .ev (.housekeeping [0] []), .connect 0, .arrive 0, .reply 0 .hs 0, .confirm 0, .deliver 0 0,
+   .ev (.housekeeping [0] []), .arrive 0, .reply 0 .ka 0, .arrive 0, .confirm 0, .reply 0 .ps 1, .confirm 0,
+   .deliver 0 1, .ev (.housekeeping [0] []), .arrive 0]
+
+example : inDomainB (Sys.init cfgW) delayed = true := by decide
+
+example : (sysRun (Sys.init cfgW) delayed).map (fun y => (y.observed.length,
+    (match y.links 0 with | .up l => some (l.unconfirmed.length, l.toResp.length) | _ => none), y.st.discovered)) =
+    some (0, some (1, 0), [8, 7]) := by
+  decide
 
 end PallasVerif.Props.C28
